@@ -130,8 +130,17 @@ def rr_cover(ctx):
                 old_val = ('param', 1)
                 for f_ in tgt[1]:
                     old_val = ('field', old_val, f_)
-                if not any(versionless(st) == old_val or (param_path(st) and param_path(st)[0] == 1 and tuple(param_path(st)[1][:len(tgt[1])]) == tuple(tgt[1]))
-                           for st in subterms(drop_lv(w.val))):
+                derives = any(versionless(st) == old_val or (param_path(st) and param_path(st)[0] == 1 and tuple(param_path(st)[1][:len(tgt[1])]) == tuple(tgt[1]))
+                              for st in subterms(drop_lv(w.val)))
+                if not derives:
+                    # rebuilt in a local collection that a loop over the old content fills
+                    from .loops import coll_local, fills_of
+                    nm = coll_local(w.val)
+                    for f_ in (fills_of(itb) if nm else []):
+                        pb = param_path(f_.loop.source()[0])
+                        if f_.local == nm and pb and pb[0] == 1 and tuple(pb[1][:len(tgt[1])]) == tuple(tgt[1]):
+                            derives = True
+                if not derives:
                     wiped = ('.'.join(tgt[1]) or 'the whole state', w.line)
         if wiped and not missing:
             ctx.fail(inst, body, 'reset_remove overwrites %s at line %d with a value that does not derive from its old content: it forgets more than the '
